@@ -50,6 +50,8 @@ def expected_dtypes(op, dtype):
         return {"bool"}
     if nm in ("abs", "sr.abs", "bv.abs", "sr.abs(bv)"):
         return {real}
+    if "promote" in op.tags:
+        return {"complex64" if dtype == "float32" else "complex128"}
     return {dtype, real} if ("linalg" in op.tags) else {dtype}
 
 
